@@ -242,7 +242,10 @@ static Token *copy_line(Token **rest, Token *tok) {
   for (; !tok->at_bol && tok->kind != TK_EOF; tok = tok->next)
     cur = cur->next = copy_token(tok);
 
-  cur->next = new_eof(tok);
+  // The end marker is located at the last token of the line if there
+  // is one, so that an error at the end of the operands ("expected
+  // ')'") names the directive's line and not the line that follows.
+  cur->next = new_eof(cur == &head ? tok : cur);
   *rest = tok;
   return head.next;
 }
@@ -1109,6 +1112,8 @@ static Token *preprocess2(Token *tok) {
     }
 
     if (equal(tok, "line")) {
+      if (tok->next->at_bol || tok->next->kind == TK_EOF)
+        error_tok(tok, "invalid line marker");
       read_line_marker(&tok, tok->next);
       continue;
     }
